@@ -114,6 +114,56 @@ pub fn replay_line(st: &mut Stats, opts: &CoreOpts, idx: usize, line: &Value) {
     }
 }
 
+/// Beyond TLC's scope: a record universe crossing the u16 limit of the crate's count conversion.
+/// The crate may refuse to build such an ontology (its documented error) - but if it builds one,
+/// the information content must still be -ln(n/N).
+fn big_ic_case(st: &mut Stats, prop: &str) {
+    use hpo::annotations::{GeneId, OmimDiseaseId};
+    use hpo::builder::Builder;
+    use hpo::HpoTermId;
+    st.cases += 1;
+    let (n_all, n_child) = (70_000u32, 66_000u32);
+    let r = catch(|| {
+        let mut b = Builder::new();
+        b.new_term("root", 1u32);
+        b.new_term("child", 2u32);
+        b.new_term("other", 3u32);
+        let mut b = b.terms_complete();
+        b.add_parent(1u32, 2u32).unwrap();
+        b.add_parent(1u32, 3u32).unwrap();
+        let mut b = b.connect_all_terms();
+        for x in 0..n_all {
+            let t = if x < n_child { 2u32 } else { 3u32 };
+            b.annotate_gene(GeneId::from(x + 1), "g", HpoTermId::from(t)).unwrap();
+        }
+        b.annotate_omim_disease(OmimDiseaseId::from(1), "o", HpoTermId::from(2u32)).unwrap();
+        b.add_omim_disease("o2", OmimDiseaseId::from(2));
+        b.calculate_information_content().map(|x| x.build_minimal())
+    });
+    let mut d = vec![];
+    match r {
+        Ok(Ok(ont)) => {
+            for (t, n) in [(1u32, n_all), (2, n_child), (3, n_all - n_child)] {
+                st.evaluations += 1;
+                let got = ont.hpo(t).unwrap().information_content().gene();
+                let want = ic_expected(n as usize, n_all as usize);
+                if !close_f32(got, want, 1e-4, 1e-6) {
+                    d.push(format!("ontology with {n_all} genes: term {t} gene IC = {got}, expected -ln({n}/{n_all}) = {want}"));
+                }
+            }
+            let got = ont.hpo(2u32).unwrap().information_content().omim_disease();
+            if !close_f32(got, ic_expected(1, 2), 1e-5, 1e-6) {
+                d.push(format!("ontology with {n_all} genes: term 2 OMIM IC = {got}, expected ln 2"));
+            }
+        }
+        Ok(Err(_)) => st.bump("big_universe_refused_by_crate", 1),
+        Err(p) => d.push(format!("building an ontology with {n_all} genes panicked: {p}")),
+    }
+    if !d.is_empty() {
+        st.violations.push(Violation { property: prop.to_string(), what: d[0].clone(), replay: json!({"cmd": "replay-core", "property": prop, "big": true, "diffs": d}) });
+    }
+}
+
 pub fn run(args: &Args) {
     silence_panics();
     let Some(shard) = shard_or_spawn("replay-core", args) else { return };
@@ -148,6 +198,10 @@ pub fn run(args: &Args) {
         },
         |i, line, st| guard_case(st, &opts.prop.clone(), "replay-core", line, |st| replay_line(st, &opts, i, line)),
     );
+    let mut stats = stats;
+    if shard.0 == 0 && opts.prop == "C03" {
+        big_ic_case(&mut stats, "C03");
+    }
     let extra = json!({"lines": lines.len(), "distinct_lines": distinct.len(), "shard_wall_s_max": t.secs()});
     finish(stats, args.req("out"), args.req("replay-dir"), extra);
 }
@@ -163,7 +217,11 @@ pub fn replay_one(v: &Value) -> bool {
         concs: vec![],
     };
     let mut st = Stats::default();
-    guard_case(&mut st, &opts.prop.clone(), "replay-core", &v["line"], |st| replay_line(st, &opts, 0, &v["line"]));
+    if v.get("big").is_some() {
+        big_ic_case(&mut st, "C03");
+    } else {
+        guard_case(&mut st, &opts.prop.clone(), "replay-core", &v["line"], |st| replay_line(st, &opts, 0, &v["line"]));
+    }
     for x in &st.violations {
         println!("reproduced: {}", x.what);
         if let Some(d) = x.replay["diffs"].as_array() {
